@@ -908,7 +908,11 @@ class _PyTimeout(Exception):
 
 
 class GuppyPanic(Exception):
-    """raised by the CPython stand-ins of Guppy conversions where the compiled program panics (nat(-1), int(1e30))"""
+    """raised by the CPython stand-ins of Guppy conversions where the compiled program panics (int(1e30))"""
+
+
+class GuppyNatPanic(GuppyPanic):
+    """nat(k) with k < 0: the compiled program panics INSIDE the op is_to_u (no order edge)"""
 
 
 #: CPython exceptions that are the PANIC of the compiled program: the expected outcome is ("panic", results so far)
@@ -926,7 +930,7 @@ def _g_int(x=0):
 def _g_nat(x=0):
     v = int(x)
     if v < 0:
-        raise GuppyPanic("nat() of a negative number")
+        raise GuppyNatPanic("nat() of a negative number")
     return v
 
 
@@ -1216,12 +1220,16 @@ def check_program(src: str, entries, policies=POLICIES, prelude=None):
                         # precede it in the same region (expected class, notes/INTERP.md: counted, not a violation)
                         if got[0] == "panic" and got[2] == want[2]:
                             run["verdict"] = "agree-panic"
-                        elif (pol != "first" and got[0] == "panic" and got[1].startswith("op:") and len(got[2]) != len(want[2])
-                              and (got[2] == want[2][:len(got[2])] or want[2] == got[2][:len(want[2])])):
-                            # the unordered panic fired early (results before it are missing) or late (results of later
-                            # calls of the same region came first)
-                            run["verdict"] = "panic-overtakes"
-                            run["why"] = ("early " if len(got[2]) < len(want[2]) else "late ") + got[1]
+                        elif (pol != "first" and got[0] == "panic" and got[1].startswith("op:") and len(got[2]) < len(want[2])
+                              and got[2] == want[2][:len(got[2])]):
+                            # an unordered op panic fired early: results that precede it in the region are missing
+                            run["verdict"], run["why"] = "panic-overtakes", "early " + got[1]
+                        elif (pol != "first" and got[0] == "panic" and len(got[2]) > len(want[2]) and want[2] == got[2][:len(want[2])]
+                              and (want[1] in ("ZeroDivisionError", "GuppyNatPanic") or (want[1] == "IndexError" and any(
+                                  o.endswith(("borrow_arr.borrow", "borrow_arr.return")) for o in fr["ops"])))):
+                            # CPython's panic is one of an op WITHOUT order edge (idiv / imod by zero, is_to_u, borrow): later
+                            # calls of the same region came first (and one of them may even have panicked itself)
+                            run["verdict"], run["why"] = "panic-overtakes", "late " + got[1]
                         else:
                             run["verdict"] = "disagree"
                     elif got == want:
@@ -1798,8 +1806,25 @@ class HGen:
         rv = r.choice([v for v in self.INTS if v not in self.protected])
         bv = r.choice(self.BOOLS)
         arrs = [x for x in self.arrays(env, INT) if env["v"][x][2] >= 1]
-        shape = r.randrange(12)
+        shape = r.randrange(15)
         self.feat["calls"] += 2
+        if shape >= 12 and ints:
+            # >= 3 operands in one list (2bb14bb): an operand stored because of a data dependence must not overtake
+            # effectful operands further left
+            x = r.choice(ints)
+            e1 = r.choice([f"{g}({a()})", f"{g}({x})", self.int_atom(env0)])
+            e2 = r.choice([f"{h}({x})", f"{h}({x}) + {x}", f"({x} - {k}({a()}))"])
+            e3 = r.choice([f"({x} := {a()})", f"({x} := {k}({a()}))", f"(({x} := {a()}) if {self.bool_expr(env0, 1)} else {k}({x}))"])
+            ops3 = [e1, e2, e3] if r.random() < 0.7 else [e1, e2, f"{k}({a()})", e3]
+            three = [hh[0] for hh in self.helpers if hh[1] == [INT] * 3 and hh[2] == INT]
+            if shape == 12 and three and len(ops3) == 3:
+                env["v"][rv] = INT
+                return [f"{rv} = {r.choice(three)}({', '.join(ops3)})"]
+            tg = r.sample([v for v in self.INTS if v not in self.protected], len(ops3))
+            for v in tg:
+                env["v"][v] = INT
+            self.feat["tuple_unpack"] += 1
+            return [f"{', '.join(tg)} = {', '.join(ops3)}"]
         if shape == 0:
             env["v"][rv] = INT
             return [f"{rv} = {g}({a()}) {r.choice('+-*')} ({h}({a()}) if {c}({a()}) else {k}({a()}))"]
@@ -1929,6 +1954,14 @@ class HGen:
                 if shape == 7:
                     return [f"{dst}[{idx}] = {pc}"]
                 return [f"{dst}[{idx}] += {pc} * 2 if {cnd()} else {atom()}"]
+            nested = [(n_, ty) for n_, ty in sorted(env0["v"].items()) if ty[0] == "array" and ty[1][0] == "array"]
+            if shape in (8, 9, 10) and nested and r.random() < 0.6:
+                # nested target: the object xss[r] is a place, only its indices are operands (6f37109)
+                n_, ty = r.choice(nested)
+                m = ty[1][2]
+                col = r.choice([str(r.randrange(m)), f"{target}[0] % {m}" if target in env0["v"] else str(r.randrange(m))])
+                self.feat["subscript"] += 1
+                return [f"{n_}[({atom()}) % {ty[2]}][{col}] {r.choice(['+=', '-=', '*='])} {lifted}"]
             if shape == 9 and deep:
                 env["v"][rv] = INT
                 return [f"{rv} = {r.choice(deep)} + {lifted} - {r.choice(deep)}"]
@@ -2311,6 +2344,9 @@ class HGen:
         if r.random() < 0.5:
             self.helpers.append(("kk", [INT, INT], INT))
             src += '@guppy\ndef kk(a: int, b: int) -> int:\n    result("kk", a * 10 + b)\n    return a - b\n\n'
+        if r.random() < 0.5:
+            self.helpers.append(("k3", [INT, INT, INT], INT))
+            src += '@guppy\ndef k3(a: int, b: int, c: int) -> int:\n    result("k3", (a * 10 + b) * 10 + c)\n    return a - b + c\n\n'
         for j in range(r.choice([0, 1, 1, 2] if self.small else [0, 1, 2, 2, 3])):
             src += self.helper(j)
         entries = []
@@ -2438,6 +2474,9 @@ def _nontrivial(feat, run):
         feat.get("corpus") or feat.get("branches", 0) + feat.get("loops", 0) + feat.get("field_branch", 0) > 0)
 
 
+KEY_PANIC_OVERTAKES = "class:implicit-op-panic-overtakes-result"
+
+
 def report_run(ctx, src, run, shrink=True):
     """a run whose lowered HUGR disagrees with CPython (or is ill-formed): a failing input of the property"""
     fn, args, verdict = run["fn"], run["args"], run["verdict"]
@@ -2537,6 +2576,16 @@ def run_cases(ctx, cases, st, deadline, ops, max_reports=4, shrink=True):
                 if run["why"].startswith("harness:"):
                     ctx.broke(f"harness: hugr_exec CPython side: {run['why']} on {run['fn']}{run['args']}\n{src}")
             ctx.count({"source": src, "fn": run["fn"], "args": run["args"], "schedule": run["policy"]}, _nontrivial(feat, run), "hugr:" + v)
+            if v == "panic-overtakes" and getattr(ctx, "pid", None) == "C05":
+                # known finding of C05 (decision of the coordinator): ops that panic internally are not in
+                # EXTENSION_OPS_WITH_SIDE_EFFECTS, so their panic is not ordered w.r.t. `result`s.  Only this exact class
+                # (classified in check_program) is routed to the class key; everything else stays keyed by its input.
+                ctx.violation(KEY_PANIC_OVERTAKES,
+                              f"implicit op panic not ordered w.r.t. results: `{run['fn']}` on {json.dumps(run['args'])} under the "
+                              f"`{run['policy']} ready node` schedule: hugr {show_outcome(run['hugr'])} / python "
+                              f"{show_outcome(run['py'])} ({run['why']}); source:\n{src}",
+                              {"hugr_source": src, "function": run["fn"], "args": run["args"], "schedule": run["policy"],
+                               "why": run["why"]})
             if v in ("disagree", "malformed"):
                 st["failing_runs"] += 1
                 if failing is None:
@@ -2570,6 +2619,22 @@ def augsub_lifted(src: str) -> bool:
         return False
 
 
+def walrus_third_operand(src: str) -> bool:
+    """an operand list (tuple display / call arguments) with an assignment expression right of >= 2 operands that call"""
+    try:
+        tree = ast.parse(src)
+    except SyntaxError:
+        return False
+    for n in ast.walk(tree):
+        ops_ = n.elts if isinstance(n, ast.Tuple | ast.List) else n.args if isinstance(n, ast.Call) else []
+        calls = 0
+        for o in ops_:
+            if calls >= 2 and any(isinstance(x, ast.NamedExpr) for x in ast.walk(o)):
+                return True
+            calls += any(isinstance(x, ast.Call) for x in ast.walk(o))
+    return False
+
+
 #: shape tags whose programs are NOT generated (scratch switch `C03_HUGR_AVOID=augsub`, used to look for further classes
 #: of disagreement behind a known one).  Empty in the check: nothing is hidden.
 AVOID_SHAPES = set(filter(None, os.environ.get("C03_HUGR_AVOID", "").split(",")))
@@ -2583,6 +2648,8 @@ def gen_cases(rng, pid, n, nargs=3, focus=None):
             yield f"gen{k}", f"# generator failed: {type(e).__name__}: {e}\n", [], {"generator_error": 1}
             continue
         if "augsub" in AVOID_SHAPES and augsub_lifted(src):
+            continue
+        if "walrus3" in AVOID_SHAPES and walrus_third_operand(src):
             continue
         yield f"gen{k}", src, entries, feat
 
